@@ -23,6 +23,9 @@ structure W where
   rows : List (List Int)
   nsig : Nat
 
+/-- `w.data[i, c]` (used by the generated comparison loops, translator tier T19) -/
+def W.at (w : W) (i : Int) (c : Nat) : Except PyErr Int := (Py.listGetE w.rows i).bind fun r => Py.listGetE r c
+
 def colStep (nsig : Nat) (ra re : List Int) (s es : Int) (c : Nat) : Except PyErr (Option Failure) :=
   (Py.listGetE ra c).bind fun x => (Py.enumCheck Gen.DigitalState.DigitalState_values x).bind fun sa =>
   (Py.listGetE re c).bind fun y => (Py.enumCheck Gen.DigitalState.DigitalState_values y).bind fun se =>
